@@ -174,6 +174,22 @@ def run_tables(shard, rec, B):
         if ok:
             S2 = O.all_strings(2)
             apply_gate(rec, B, "table.copy.CNOT", g2, "CNOT", [c, t], 2, np.repeat(S2, 4, 0), np.tile(np.arange(4), 16), True)
+    # a gate applied to its OWN table (the receiver is the argument): the table of the gate squared
+    for name in ("H", "S", "X", "Y", "Z"):
+        gate = ctor[name](0)
+        eg, ep = textbook_map(name, [0], 1)
+        sq = O.map_compose(eg, ep, eg, ep)
+        ok, R = rec.attempt("table.self." + name, name, lambda: gate.forward(gate.forward_map))
+        if ok:
+            fg, fp = B.gsps(gate.forward_map)
+            rec.check("table.self." + name, np.array_equal(fg, sq[0]) and np.array_equal(fp, sq[1] % 4), name, True,
+                      expected=[O.show(a, b) for a, b in zip(sq[0], sq[1])], observed=[O.show(a, b) for a, b in zip(fg, fp)])
+    for (c, t) in ((0, 1), (1, 0)):
+        gate = C.CNOT(c, t)
+        ok, R = rec.attempt("table.self.CNOT", [c, t], lambda: gate.forward(gate.forward_map))
+        if ok:
+            fg, fp = B.gsps(gate.forward_map)
+            rec.check("table.self.CNOT", np.array_equal(fg, np.eye(4, dtype=np.int64)) and not fp.any(), [c, t], True)
     # ONE gate object applied to registers of several sizes, in ascending, descending and mixed order
     for name, qubits in [(nm, (q,)) for nm in ("H", "S", "X", "Y", "Z") for q in (0, 1)] + [("CNOT", (0, 1)), ("CNOT", (1, 0))]:
         for order in ((2, 3, 4, 2), (4, 3, 2), (3, 2, 3, 5)):
@@ -217,6 +233,14 @@ def run_cgroup(shard, rec, B):
         fg, fp = B.gsps(gate.forward_map)
         maps.append((fg, fp))
         rec.check("C.valid", O.map_valid(fg, fp) and gate.qubits == (0,), k, True, observed=[O.show(g, p) for g, p in zip(fg, fp)])
+        # applied to its own table: the square of the element (still one of the 24)
+        g2 = B.circuit.C(k, 0)
+        ok, _ = rec.attempt("C.self", k, lambda: g2.forward(g2.forward_map))
+        if ok:
+            sg, sp = B.gsps(g2.forward_map)
+            sq = O.map_compose(fg, fp, fg, fp)
+            rec.check("C.self", np.array_equal(sg, sq[0]) and np.array_equal(sp, sq[1] % 4), k, True,
+                      expected=[O.show(a, b) for a, b in zip(sq[0], sq[1])], observed=[O.show(a, b) for a, b in zip(sg, sp)])
     keys = [(tuple(g.reshape(-1).tolist()), tuple(p.tolist())) for g, p in maps]
     for i in range(24):
         for j in range(i + 1, 24):
